@@ -90,5 +90,7 @@ FIXED.append("fixed: property=C01 f252080 any operator on a FHIR Quantity elemen
 FIXED.append("fixed: property=C01 1a2fa02 1.5.round(2147483647) did not terminate (10^2147483647)")
 FIXED.append("fixed: property=C01 7cd054e patch.Add(res, 'Patient.deceased', 'value', x) panicked (bool field converted to message)")
 
+FIXED.append("fixed: property=C20 7c95d62 the label Patient.text.div.id is not a FHIRPath (div is a keyword); found by the thorough tier (depth 3 reaches Narrative.div.id)")
+
 if __name__ == '__main__':
     write()
